@@ -1,14 +1,249 @@
-(* Proofs for property C11. *)
+(* Proofs for property C11 (indications are confirmed one at a time and never lost). *)
 From Coq Require Import Lia ZifyBool.
-From BT Require Import Base.ListX Base.Bits2 AttDb.AttDbModel NQueue.NQueueModel AttSrv.AttSrvModel AttSrv.AttSrvNotifSpec.
+From BT Require Import Base.ListX Base.Bits2 AttDb.AttDbModel NQueue.NQueueModel AttSrv.AttSrvModel
+  AttSrv.AttSrvSpecC01 AttSrv.AttSrvProofsC01 AttSrv.AttSrvFrame.
 Local Open Scope N_scope.
 
-(* a Handle Value Confirmation with a wrong length leaves the state unchanged *)
+(* ------------------------------------------------------------------ queue level *)
+(* while an indication is outstanding (no_out = false) a dequeue never returns an indication *)
+Lemma scan_blocked fuel : forall size q i k j, scan fuel size q i false = Some (k, j) -> k = KNotif.
+Proof.
+  induction fuel as [|f IH]; intros size q i k j H; simpl in H; [discriminate|].
+  rewrite andb_false_r in H. destruct (negb (N.land (at_ q i) 1 =? 0)); [inv H; reflexivity|eauto].
+Qed.
+
+Lemma level_deq_blocked l k i l' : level_deq l false = (Some (k, i), l') -> k = KNotif.
+Proof.
+  destruct l as [s n q|st]; simpl.
+  - destruct (scan s s q n false) as [[k0 i0]|] eqn:E; intros H; inv H. eapply scan_blocked; eauto.
+  - rewrite andb_false_r. destruct (negb (N.land st 1 =? 0)); intros H; inv H. reflexivity.
+Qed.
+
+Lemma chain_deq_blocked : forall ls off k i ls', chain_deq ls off false = (Some (k, i), ls') -> k = KNotif.
+Proof.
+  induction ls as [|l t IH]; intros off k i ls' H; simpl in H; [discriminate|].
+  destruct (level_deq l false) as [[[k0 i0]|] l'] eqn:E.
+  - inv H. eapply level_deq_blocked; eauto.
+  - destruct (chain_deq t (off + lsize l) false) as [r t'] eqn:E2. inv H. eapply IH; eauto.
+Qed.
+
+(* dequeue_indication_or_confirmation: an indication is handed out only when none is outstanding, and is
+   then outstanding; anything else leaves outstanding_confirmation_index_ alone *)
+Lemma step_dequeue_outstanding s s' r :
+  NQueueModel.step s Dequeue = (s', OEntry r) ->
+  match r with
+  | Some (KInd, i) => outstanding s = None /\ outstanding s' = Some i
+  | _ => outstanding s' = outstanding s
+  end.
+Proof.
+  unfold NQueueModel.step. destruct (chain_deq (levels s) 0 (is_none (outstanding s))) as [r0 ls] eqn:E.
+  intros H. inv H. destruct r as [[[|] i]|]; cbn [outstanding]; auto.
+  split; auto. destruct (outstanding s); auto. cbn [is_none] in E. apply chain_deq_blocked in E. discriminate.
+Qed.
+
+Lemma step_queue_outstanding s i kd : outstanding (fst (NQueueModel.step s (match kd with KNotif => QueueN i | KInd => QueueI i end))) = outstanding s.
+Proof. destruct kd; unfold NQueueModel.step; destruct (chain_add _ _ _); reflexivity. Qed.
+
+(* ------------------------------------------------------------------ l2cap_output *)
+Definition out_of (k : conn) : option nat := outstanding (nq k).
+
+Lemma put_hd b x t b' n : put b 0 (x :: t) = Some b' -> 1 <= n -> exists t', takeN n b' = x :: t'.
+Proof.
+  intros P Hn. pose proof (put_zero _ _ _ _ P) as Z. pose proof (put_len _ _ _ _ P) as L.
+  unfold put in P. destruct (0 + len (x :: t) <=? len b) eqn:E; [|discriminate]. apply N.leb_le in E.
+  destruct (takeN_hd n b' Hn) as (t' & Ht); [unfold len in *; cbn [length] in E; lia|].
+  exists t'. rewrite Ht, Z. reflexivity.
+Qed.
+
+(* a Handle Value Indication (first byte 1D) is transmitted only when no indication is outstanding on the
+   connection, and is outstanding afterwards; in every other case (notification, nothing sent - also when
+   an indication was dequeued but could not be sent) outstanding is what it was *)
+Theorem att_output_outstanding c st cid n st' rs k :
+  get_conn st cid = Some k -> att_output c st cid n = Some (st', rs) ->
+  exists k', get_conn st' cid = Some k' /\
+    match rs with
+    | 29 :: _ => out_of k = None /\ out_of k' <> None
+    | _ => out_of k' = out_of k
+    end.
+Proof.
+  intros G. unfold att_output. rewrite G. unfold nq_step at 1.
+  destruct (NQueueModel.step (nq k) Dequeue) as [q1 r] eqn:D.
+  set (k1 := mkConn (client_mtu k) (cccd k) (encrypted k) (pairing k) q1).
+  assert (G1 : get_conn (set_conn st cid k1) cid = Some k1).
+  { unfold get_conn, set_conn. cbn [conns]. apply nth_error_upd_eq. eapply nth_error_lt; eauto. }
+  destruct r as [x|r|].
+  - unfold NQueueModel.step in D. destruct (chain_deq _ _ _). discriminate.
+  - pose proof (step_dequeue_outstanding _ _ _ D) as O.
+    destruct r as [[kd i]|]; [|intros H; inv H; exists k1; split; auto].
+    destruct (find_notification_data_by_index c (N.of_nat i)) as [ai ci].
+    assert (U : forall s, get_conn s cid = Some k1 ->
+                exists k', get_conn (unsent_indication s cid kd) cid = Some k' /\ out_of k' = out_of k).
+    { intros s Gs. unfold unsent_indication. destruct kd.
+      - exists k1. split; auto.
+      - rewrite Gs. eexists. split.
+        + unfold get_conn, set_conn. cbn [conns]. apply nth_error_upd_eq. eapply nth_error_lt; eauto.
+        + unfold out_of, nq_step. cbn [NQueueModel.step fst nq outstanding]. destruct O as [O _]. rewrite O. reflexivity. }
+    destruct (negb _ && (3 <=? _)) eqn:C.
+    + intros H. mon.
+      match goal with E0 : access_read _ _ _ _ _ _ _ = Some (?s2, _, _) |- _ =>
+        pose proof (access_read_conns _ _ _ _ _ _ _ _ _ _ E0) as C2;
+        assert (G2 : get_conn s2 cid = Some k1) by (unfold get_conn in *; rewrite C2; exact G1)
+      end.
+      match goal with H : match ?rc with Success => _ | _ => _ end = Some _ |- _ => destruct rc end; mon.
+      * exists k1. split; auto.
+        match goal with P : put _ 0 (_ :: _) = Some ?b2 |- _ =>
+          destruct (put_hd _ _ _ _ (3 + len l) P) as (t' & Ht); [lia|]; rewrite Ht end.
+        destruct kd; cbn.
+        -- exact O.
+        -- destruct O as [O1 O2]. split; auto. unfold out_of. cbn [nq k1]. rewrite O2. discriminate.
+      * destruct (U _ G2) as (k' & Gk & Ok). exists k'. split; auto.
+      * destruct (U _ G2) as (k' & Gk & Ok). exists k'. split; auto.
+    + intros H. inv H. destruct (U _ G1) as (k' & Gk & Ok). exists k'. split; auto.
+  - unfold NQueueModel.step in D. destruct (chain_deq _ _ _). discriminate.
+Qed.
+
+(* ------------------------------------------------------------------ Handle Value Confirmation *)
+(* a confirmation with a wrong length is answered with 01 1E 00 00 04 and changes nothing; one of length 1
+   gets no response and ends the wait *)
+Lemma confirmation_bad_length c st cid pdu b n st' r :
+  5 <= n -> rd pdu 0 = Some 30 -> len pdu <> 1 ->
+  handle_confirmation c st cid pdu b n = Some (st', r) ->
+  st' = st /\ snd r = 5 /\ takeN 5 (fst r) = [1; 30; 0; 0; 4].
+Proof.
+  intros Hn Hop L. unfold handle_confirmation. rewrite Hop.
+  replace (negb (len pdu =? 1)) with true by (symmetry; apply negb_true_iff, N.eqb_neq; exact L).
+  unfold error_response. replace (5 <=? n) with true by (symmetry; apply N.leb_le; auto).
+  destruct (put b 0 _) eqn:P; [|discriminate]. intros H. inv H. split; auto. split; [reflexivity|].
+  apply put_take in P. exact P.
+Qed.
+
+Lemma confirmation_good c st cid b n k :
+  get_conn st cid = Some k ->
+  handle_confirmation c st cid [30] b n = Some (set_conn st cid (fst (nq_step k Confirm)), (b, 0))
+  /\ out_of (fst (nq_step k Confirm)) = None.
+Proof. intros G. unfold handle_confirmation. change (rd [30] 0) with (Some 30). cbn. rewrite G. split; reflexivity. Qed.
+
 Lemma confirmation_bad_length_unchanged c st cid pdu b n st' r :
   handle_confirmation c st cid pdu b n = Some (st', r) -> len pdu <> 1 -> st' = st.
 Proof.
   unfold handle_confirmation. destruct (rd pdu 0); [|discriminate].
   destruct (negb (len pdu =? 1)) eqn:E.
-  - destruct (error_response _ _ _ _ _); [|discriminate]. intros [= <- _]. reflexivity.
+  - destruct (error_response _ _ _ _ _); [|discriminate]. intros H. inv H. reflexivity.
   - intros _ L. apply negb_false_iff, N.eqb_eq in E. contradiction.
+Qed.
+
+(* ------------------------------------------------------------------ one at a time, along a history *)
+(* operations that end the wait for a confirmation on connection cid: a Handle Value Confirmation of length 1
+   and a disconnect *)
+Definition ends_wait (cid : nat) (o : srv_op) : bool :=
+  match o with
+  | OpIn i [30] _ => Nat.eqb i cid
+  | OpDisc i => Nat.eqb i cid
+  | _ => false
+  end.
+
+Lemma att_input_not_confirm c st cid pdu n st' rs k :
+  get_conn st cid = Some k -> att_input c st cid pdu n = Some (st', rs) -> pdu <> [30] ->
+  exists k', get_conn st' cid = Some k' /\ nq k' = nq k.
+Proof.
+  intros G A Np.
+  destruct (rd pdu 0) as [op|] eqn:Hop.
+  2:{ unfold att_input in A. rewrite G in A. destruct (len pdu =? 0); [discriminate|]. destruct (_ <? _); [discriminate|].
+      rewrite Hop in A. discriminate. }
+  destruct (N.eq_dec op 30) as [->|N30].
+  - (* opcode 1E with a wrong length: rejected *)
+    assert (L : len pdu <> 1).
+    { intros L. apply Np. destruct pdu as [|a [|b t]]; [discriminate| |unfold len in L; cbn [length] in L; lia].
+      change (rd [a] 0) with (Some a) in Hop. inv Hop. reflexivity. }
+    exists k. split; auto.
+    unfold att_input in A. rewrite G in A. destruct (len pdu =? 0); [discriminate|]. destruct (_ <? _); [discriminate|].
+    rewrite Hop in A. cbn [N.eqb Pos.eqb] in A.
+    destruct (handle_confirmation _ _ _ _ _ _) as [[s1 [b1 m]]|] eqn:HC; [|discriminate].
+    apply confirmation_bad_length_unchanged in HC; auto. destruct (m <=? len b1); [|discriminate]. inv A. exact G.
+  - pose proof (att_input_frameb _ _ _ _ _ _ _ _ Hop A) as F.
+    replace (op =? 30) with false in F by (symmetry; apply N.eqb_neq; auto).
+    destruct (frame_this _ _ _ _ _ F) as (k0 & k1 & G0 & G1 & C). rewrite G in G0. inv G0.
+    exists k1. split; auto. eapply conn_change_nq; eauto.
+Qed.
+
+Lemma hd29 (A B : Prop) (x : N) (t : list N) :
+  match x :: t with 29 :: _ => A | _ => B end -> (x = 29 /\ A) \/ (x <> 29 /\ B).
+Proof.
+  destruct (N.eq_dec x 29) as [->|Nx]; [left; auto|]. intros H. right. split; auto.
+  destruct x as [|p]; auto. repeat (destruct p as [p|p|]; auto). exfalso. apply Nx. reflexivity.
+Qed.
+
+Lemma not29 (x : N) (t : list N) (P : Prop) : x <> 29 -> match x :: t with 29 :: _ => P | _ => True end.
+Proof.
+  intros Nx. destruct x as [|p]; auto. repeat (destruct p as [p|p|]; auto). exfalso. apply Nx. reflexivity.
+Qed.
+
+(* one step that does not end the wait keeps an outstanding indication outstanding, and does not transmit
+   another indication on that connection *)
+Lemma srv_step_keeps_waiting c st o cid k :
+  get_conn st cid = Some k -> out_of k <> None -> ends_wait cid o = false ->
+  (exists k', get_conn (fst (srv_step c st o)) cid = Some k' /\ out_of k' = out_of k)
+  /\ match o, snd (srv_step c st o) with
+     | OpOut i _, OBytes (29 :: _) => i <> cid
+     | _, _ => True
+     end.
+Proof.
+  intros G W E.
+  destruct o as [i pdu n|i n|i e p|i|bu kd gci|gci|gci data]; cbn [srv_step ends_wait] in *.
+  - split; auto.
+    destruct (att_input c st i pdu n) as [[st' rs]|] eqn:A; cbn [fst]; eauto.
+    destruct (Nat.eq_dec i cid) as [->|Ni].
+    + assert (Np : pdu <> [30]).
+      { intros ->. rewrite Nat.eqb_refl in E. discriminate. }
+      destruct (att_input_not_confirm _ _ _ _ _ _ _ _ G A Np) as (k' & Gk & Q).
+      exists k'. split; auto. unfold out_of. rewrite Q. reflexivity.
+    + exists k. split; auto. rewrite (frame_other _ _ _ _ _ cid (att_input_frame _ _ _ _ _ _ _ A)); auto.
+  - destruct (att_output c st i n) as [[st' rs]|] eqn:A; cbn [fst snd]; [|split; eauto].
+    destruct (Nat.eq_dec i cid) as [->|Ni].
+    + destruct (att_output_outstanding _ _ _ _ _ _ _ G A) as (k' & Gk & M).
+      destruct rs as [|x t]; [split; eauto|].
+      apply (hd29 _ _ x t) in M. destruct M as [[-> [M _]]|[Nx M]]; [contradiction|].
+      split; [exists k'; split; auto|apply not29; auto].
+    + split.
+      * exists k. split; auto. rewrite (frame_other _ _ _ _ _ cid (att_output_frame _ _ _ _ _ _ A)); auto.
+      * destruct rs as [|x t]; auto. destruct x as [|p]; auto. repeat (destruct p as [p|p|]; auto).
+  - split; auto. destruct (get_conn st i) as [k0|] eqn:G0; cbn [fst]; eauto.
+    destruct (Nat.eq_dec cid i) as [->|N].
+    + rewrite G in G0. inv G0. eexists. split.
+      * unfold get_conn, set_conn. cbn [conns]. apply nth_error_upd_eq. eapply nth_error_lt; eauto.
+      * reflexivity.
+    + exists k. split; auto. unfold get_conn, set_conn. cbn [conns]. rewrite nth_error_upd_neq; auto.
+  - split; auto. cbn [fst]. apply Nat.eqb_neq in E. exists k. split; auto.
+    unfold get_conn, set_conn. cbn [conns]. rewrite nth_error_upd_neq by auto. rewrite wq_free_conns. exact G.
+  - split; auto.
+    assert (R : forall d, exists k', get_conn (fst (request st kd d)) cid = Some k' /\ out_of k' = out_of k).
+    { intros d. unfold request. destruct (queue_all (conns st) _) as [l rs] eqn:Q. cbn [fst].
+      destruct (queue_all_spec _ _ _ _ Q) as (_ & N0). unfold get_conn in *. cbn [conns].
+      rewrite (N0 _ _ G). eexists. split; [reflexivity|]. unfold out_of, nq_step.
+      pose proof (step_queue_outstanding (nq k) (N.to_nat (snd d)) kd) as S.
+      destruct (NQueueModel.step (nq k) _). exact S. }
+    destruct bu.
+    + destruct (by_uuid_available c kd gci); cbn [fst]; eauto.
+      unfold notify_by_uuid. destruct (nth_error (all_chars c) gci) as [x|]; cbn [fst]; eauto.
+      destruct (find_notification_by_uuid c (c_uuid (snd x))) as [d|]; cbn [fst]; eauto.
+      specialize (R d). destruct (request st kd d). exact R.
+    + destruct (by_value_available c gci); cbn [fst]; eauto.
+      unfold notify_by_value. destruct (find_notification_data c gci) as [d|]; cbn [fst]; eauto.
+      specialize (R d). destruct (request st kd d). exact R.
+  - split; auto. destruct (has_var c gci) as [[w h]|]; cbn [fst]; eauto.
+  - split; auto. destruct (has_var c gci) as [[[|] h]|]; cbn [fst]; eauto.
+Qed.
+
+(* after an indication is transmitted on a connection, no further indication is transmitted on it by ANY
+   history that contains no confirmation of length 1 / disconnect for that connection *)
+Theorem one_indication_at_a_time c cid : forall ops st k,
+  get_conn st cid = Some k -> out_of k <> None ->
+  forallb (fun o => negb (ends_wait cid o)) ops = true ->
+  Forall (fun x => match fst x, snd x with OpOut i _, OBytes (29 :: _) => i <> cid | _, _ => True end) (srv_run c st ops).
+Proof.
+  induction ops as [|o t IH]; intros st k G W F; cbn [srv_run]; [constructor|].
+  cbn [forallb] in F. apply andb_true_iff in F. destruct F as [F1 F2]. apply negb_true_iff in F1.
+  destruct (srv_step_keeps_waiting c st o cid k G W F1) as ((k' & Gk & Ok) & M).
+  destruct (srv_step c st o) as [st' r] eqn:S. cbn [fst snd] in *.
+  constructor; [cbn [fst snd]; destruct o; auto; rewrite S in M; exact M|]. eapply IH; eauto. rewrite Ok. exact W.
 Qed.
